@@ -2,10 +2,13 @@ import PdfVerif.Model.HISObj
 /-!
 # C04 (part 2) — stream extent recovery
 
-`stream_extent_recovery`: whenever `/Length` is missing, unresolvable, negative or wrong (it does
-not point at white space followed by `endstream`), `ReadStreamData` returns exactly the bytes
-between the EOL after `stream` and the EOL before `endstream`, for every body that does not end
-in CR/LF and does not contain EOL+`endstream`.
+`stream_extent_recovery` (library HEAD f33cd07, D-C20-1): whenever `/Length` is missing,
+unresolvable, negative or wrong (it does not point at white space followed by `endstream`),
+`ReadStreamData` returns exactly the bytes between the EOL after `stream` and the ONE EOL marker
+before `endstream`, for every body that does not contain EOL+`endstream` — the body may end in
+LF, CR LF or several EOLs of its own; only a bare CR directly in front of the marker LF is excluded
+(the file shows the single marker CR LF then).  A body with a line that starts with `endstream`
+is cut there (known finding, `Props/C04hisg.lean`).
 -/
 namespace PdfVerif.C04hisb
 open PdfVerif PdfVerif.HIS
@@ -109,15 +112,45 @@ theorem trim_cr (b : Bytes) (h : endsInEol b = false) : trimTrailingEOL (b ++ [1
 /-- the three spellings of an end-of-line marker (§7.2.3) -/
 def IsEol (e : Bytes) : Prop := e = [10] ∨ e = [13, 10] ∨ e = [13]
 
-/-- **Stream extent recovery.**  Let a file contain `stream`, a conforming EOL (LF or CR LF), a
-body, an EOL (LF, CR LF or CR), `endstream`, anything.  If the body does not end in CR/LF and
-contains no EOL directly followed by `endstream`, then for *every* body, every surrounding
-bytes and every unusable `/Length` — absent or unresolvable (`declared = none`) or a value `d`
-which does not point at optional white space followed by `endstream` — `ReadStreamData` returns
-exactly the body: its extent starts after the first EOL and has the length of the body. -/
+/-- the body ends in a bare CR -/
+def endsInCR (b : Bytes) : Bool :=
+  match b.reverse with
+  | c :: _ => c == 13
+  | [] => false
+
+theorem trim_eol (body endEol : Bytes) (hend : IsEol endEol) (hamb : endEol = [10] → endsInCR body = false) :
+    trimTrailingEOL (body ++ endEol) = body.length := by
+  unfold trimTrailingEOL
+  rcases hend with rfl | rfl | rfl
+  · have h := hamb rfl
+    unfold endsInCR at h
+    simp only [List.reverse_append, List.reverse_cons, List.reverse_nil, List.nil_append, List.cons_append]
+    cases hr : body.reverse with
+    | nil => simp
+    | cons c t =>
+      rw [hr] at h
+      have hc : c ≠ 13 := by simpa using h
+      split
+      · rename_i heq; simp at heq; exact absurd heq.1 hc
+      · simp
+      · rename_i heq; simp at heq
+      · rename_i h1 h2 h3; exact absurd rfl (h2 _)
+  · simp only [List.reverse_append, List.reverse_cons, List.reverse_nil, List.nil_append, List.cons_append]
+    simp
+  · simp only [List.reverse_append, List.reverse_cons, List.reverse_nil, List.nil_append, List.cons_append]
+    simp
+
+/-- **Stream extent recovery** (library HEAD f33cd07).  Let a file contain `stream`, a conforming
+EOL (LF or CR LF), a body, an EOL marker (LF, CR LF or CR), `endstream`, anything.  If the body
+contains no EOL directly followed by `endstream`, and — when the marker is a bare LF — does not
+end in a bare CR (the file would show the ONE marker CR LF), then for *every* such body, in
+particular one that ends in LF, CR LF or several EOLs, every surrounding bytes and every
+unusable `/Length` — absent or unresolvable (`declared = none`) or a value `d` which does not
+point at optional white space followed by `endstream` — `ReadStreamData` returns exactly the
+body: its extent starts after the first EOL and has the length of the body. -/
 theorem stream_extent_recovery (pre body rest startEol endEol : Bytes)
     (hstart : startEol = [10] ∨ startEol = [13, 10]) (hend : IsEol endEol)
-    (hlast : endsInEol body = false) (hno : findEolEndstream body = none)
+    (hamb : endEol = [10] → endsInCR body = false) (hno : findEolEndstream body = none)
     (declared : Option Nat)
     (hdecl : ∀ d, declared = some d →
       endstreamAt (pre ++ kw_stream ++ startEol ++ body ++ endEol ++ kwEndstream ++ rest)
@@ -138,6 +171,7 @@ theorem stream_extent_recovery (pre body rest startEol endEol : Bytes)
     rw [this]
     have hl : start = (pre ++ kw_stream ++ startEol).length := by simp [start, kw_stream]; omega
     rw [hl]; exact drop_len_append _ _
+  have hel : endEol.length ≥ 1 := by rcases hend with rfl | rfl | rfl <;> simp
   -- where the recovery path finds the pattern
   have hfind : findEolEndstream (body ++ (endEol ++ (kwEndstream ++ rest)))
       = some (body.length + (endEol.length - 1)) := by
@@ -162,24 +196,19 @@ theorem stream_extent_recovery (pre body rest startEol endEol : Bytes)
       rw [this]
       unfold findEolEndstream
       simp [isEolByte, isPrefixOf_self_append]
-  -- what is trimmed
-  have htrim : trimTrailingEOL ((body ++ (endEol ++ (kwEndstream ++ rest))).take (body.length + (endEol.length - 1))) = body.length := by
-    rcases hend with rfl | rfl | rfl
-    · simp only [List.length_cons, List.length_nil, Nat.add_zero, Nat.sub_self]
-      rw [take_len_append]; exact trim_noeol body hlast
-    · have : (body ++ ([13, 10] ++ (kwEndstream ++ rest))) = (body ++ [13]) ++ (10 :: (kwEndstream ++ rest)) := by simp
-      rw [this]
-      have hl : body.length + ([13, 10].length - 1) = (body ++ [13]).length := by simp
-      rw [hl, take_len_append]; exact trim_cr body hlast
-    · simp only [List.length_cons, List.length_nil, Nat.add_zero, Nat.sub_self]
-      rw [take_len_append]; exact trim_noeol body hlast
-  have hrecover : (match findEolEndstream (file.drop start) with
-      | none => (Except.error Err.malformed : Except Err StreamExt)
-      | some i => .ok { start := start, len := trimTrailingEOL ((file.drop start).take i), after := start + i + 10 })
+  -- what is trimmed: exactly the EOL marker
+  have htrim : trimTrailingEOL ((body ++ (endEol ++ (kwEndstream ++ rest))).take
+      (body.length + (endEol.length - 1) + 1)) = body.length := by
+    have h1 : body.length + (endEol.length - 1) + 1 = (body ++ endEol).length := by
+      simp; omega
+    have h2 : body ++ (endEol ++ (kwEndstream ++ rest)) = (body ++ endEol) ++ (kwEndstream ++ rest) := by simp
+    rw [h1, h2, take_len_append]
+    exact trim_eol body endEol hend hamb
+  have hrecover : recoverExtent file start
       = .ok { start := start, len := body.length, after := start + body.length + endEol.length + 9 } := by
+    unfold recoverExtent
     rw [hdropS, hfind]
     simp only [htrim]
-    have : endEol.length ≥ 1 := by rcases hend with rfl | rfl | rfl <;> simp
     congr 2
     omega
   refine ⟨?_, ?_⟩
